@@ -302,6 +302,19 @@ class Folder:
             # single-return repo helper with constant args
             if n not in local:
                 r = self.prog.resolve(mod, n)
+                if r and r[0] == "assign" and isinstance(r[1], ast.Call) and depth < 30 and not any(isinstance(a_, ast.Starred) for a_ in list(r[1].args) + list(node.args)) \
+                        and all(k_.arg for k_ in list(r[1].keywords) + list(node.keywords)) and r[1].args \
+                        and ((isinstance(r[1].func, ast.Name) and r[1].func.id == "partial") or (isinstance(r[1].func, ast.Attribute) and r[1].func.attr == "partial"
+                                                                                                   and isinstance(r[1].func.value, ast.Name) and r[1].func.value.id == "functools")):
+                    # NAME = functools.partial(F, a, k=v); NAME(x, j=w) is F(a, x, k=v, j=w) (a later keyword wins)
+                    pc = r[1]
+                    kws = {k_.arg: k_.value for k_ in pc.keywords}
+                    kws.update({k_.arg: k_.value for k_ in node.keywords})
+                    if r[2] is mod or not node.args and not node.keywords or all(isinstance(a_, ast.Constant) for a_ in list(node.args) + [k_.value for k_ in node.keywords]):
+                        synth = ast.Call(func=pc.args[0], args=list(pc.args[1:]) + list(node.args), keywords=[ast.keyword(arg=k_, value=v_) for k_, v_ in kws.items()])
+                        ast.copy_location(synth, node)
+                        ast.fix_missing_locations(synth)
+                        return self._call(synth, r[2], depth + 1, local)
                 if r and r[0] == "func":
                     fn = r[1]
                     body = [s for s in fn.body if not (isinstance(s, ast.Expr) and isinstance(s.value, ast.Constant))]
